@@ -397,6 +397,158 @@ class Interp(container.ContainerInterp):
                                          lambda w, sname=sname, other=other: setattr(w, container.SETTERS[sname], specs.build(container_min(other))))
             # 11. a write session in which every call was refused: closing it leaves the file as it was when the session began
             self.session_of_refusals(seed)
+        if self.hole is None:
+            # 12. a block that cannot be encoded BECAUSE OF A PROCESS-WIDE SETTING: a finite float64 sample beyond the float32 range while numpy's
+            #     overflow handling is 'raise' (np.errstate(over="raise"), or warnings turned into errors): refused - cleanly
+            self.strict_numeric_refusals(seed)
+            # 13. the very object of an ACCEPTED call, spoilt in place afterwards (label too long / not cp1252 / format unsupported - none of which
+            #     changes its size) and offered again through the replace path: refused - cleanly (the block stored earlier stays)
+            self.spoilt_after_accept(seed)
+
+    def _scratch(self, name):
+        import shutil
+
+        cp = os.path.join(self.dir, name)
+        shutil.copyfile(self.path, cp)
+        return cp
+
+    def strict_numeric_refusals(self, seed):
+        import warnings
+
+        from basictdf import Tdf
+
+        from .c14 import FIELDS, _ramp, _rle_objects
+
+        live_codes = self.live_types()
+        free = self.free_slots() > 0
+        for name in ("data3D", "force3D", "platData", "emg"):
+            present = reftdf.TYPE_CODE[name] in live_codes
+            if not present and not free:
+                continue
+            fields = {}
+            for k, (fname, w) in enumerate(FIELDS[name]):
+                a = _ramp(2, w, start=3.0 + k).astype("<f8")
+                if k == seed % len(FIELDS[name]):
+                    a.flat[-1] = 1e39          # finite, beyond float32
+                fields[fname] = a
+            for strict in ("errstate-raise", "warnings-as-errors"):
+                paths = (["replace_block"] + (["setter"] if name in container.SETTERS else [])) if present else (["add_block"] + (["setter"] if name in container.SETTERS else []))
+                for path in paths:
+                    cp = self._scratch("scratch-strict.tdf")
+                    before = open(cp, "rb").read()
+                    raised = None
+                    t2 = Tdf(cp)
+                    t2.allow_write()
+                    t2.__enter__()
+                    try:
+                        blk = _rle_objects(name, 2, [fields])
+                        with warnings.catch_warnings():
+                            if strict == "warnings-as-errors":
+                                warnings.simplefilter("error")
+                            with np.errstate(over="raise" if strict == "errstate-raise" else "warn"):
+                                try:
+                                    if path == "setter":
+                                        setattr(t2, container.SETTERS[name], blk)
+                                    elif path == "replace_block":
+                                        t2.replace_block(blk)
+                                    else:
+                                        t2.add_block(blk)
+                                except Exception as e:  # noqa
+                                    raised = e
+                    finally:
+                        try:
+                            t2.__exit__(None, None, None)
+                        except Exception:  # noqa
+                            pass
+                    after = open(cp, "rb").read()
+                    os.unlink(cp)
+                    cause = f"unencodable-under-{strict}"
+                    self.ctx.evaluations += 1
+                    self.ctx.hist["cause:" + cause] += 1
+                    self.ctx.hist[f"cell:{cause}|{path}|{self.state_class()}"] += 1
+                    self.ctx.hist[f"strict-numeric:{'refused' if raised is not None else 'accepted'}"] += 1
+                    if raised is not None and after != before:
+                        k = next((i for i in range(min(len(before), len(after))) if before[i] != after[i]), min(len(before), len(after)))
+                        self.ctx.fail(f"{cause}/{path}/file-changed", f"{path} of a {name} block holding 1e39 (float64) refused ({type(raised).__name__}) with numeric overflow "
+                                                                      f"made fatal ({strict}), but the file changed: length {len(before)} -> {len(after)}, first difference at byte {k}; "
+                                                                      f"state {self.state_class()}, N={self.N}, {len(self.model)} live")
+
+    def spoilt_after_accept(self, seed):
+        from basictdf import Tdf
+
+        live_codes = self.live_types()
+        free = self.free_slots() > 0
+        for name in LABELLED:
+            present = reftdf.TYPE_CODE[name] in live_codes
+            if not present and not free:
+                continue
+            for how in ("label-too-long", "label-not-cp1252") + (("format-unsupported",) if name in ("data3D", "emg", "force3D") else ()):
+                for first, second in (("setter", "setter"), ("add-or-replace", "replace_block"), ("setter", "replace_block")):
+                    if "setter" in (first, second) and name not in container.SETTERS:
+                        continue
+                    cp = self._scratch("scratch-spoilt.tdf")
+                    t2 = Tdf(cp)
+                    t2.allow_write()
+                    t2.__enter__()
+                    raised, accepted, before = None, False, None
+                    try:
+                        blk = specs.build(labelled_spec(name, 2))
+                        try:
+                            if first == "setter":
+                                setattr(t2, container.SETTERS[name], blk)
+                            elif present:
+                                t2.replace_block(blk)
+                            else:
+                                t2.add_block(blk)
+                            accepted = True
+                        except Exception:  # noqa - C11's subject
+                            pass
+                        if accepted:
+                            t2.handler.flush()
+                            before = open(cp, "rb").read()
+                            items = [x[1] if isinstance(x, tuple) else x for x in list(blk)] if name != "optical" else list(blk.channels)
+                            target = items[seed % len(items)]
+                            attr = "camera_name" if name == "optical" else "label"
+                            if how == "label-too-long":
+                                setattr(target, attr, "x" * (32 if name == "optical" else 256))
+                            elif how == "label-not-cp1252":
+                                setattr(target, attr, "caf\u0107")
+                            else:
+                                blk.format = type(blk.format)(max(f.value for f in type(blk.format)))
+                                if blk.format.value == labelled_spec(name, 2)["format"]:
+                                    accepted = False
+                        if accepted:
+                            try:
+                                if second == "setter":
+                                    setattr(t2, container.SETTERS[name], blk)
+                                else:
+                                    t2.replace_block(blk)
+                            except Exception as e:  # noqa
+                                raised = e
+                            t2.handler.flush()
+                    finally:
+                        try:
+                            t2.__exit__(None, None, None)
+                        except Exception:  # noqa
+                            pass
+                    after = open(cp, "rb").read()
+                    os.unlink(cp)
+                    if not accepted:
+                        continue
+                    cause = f"accepted-object-spoilt-{how}"
+                    self.ctx.evaluations += 1
+                    self.ctx.hist["cause:" + cause] += 1
+                    self.ctx.hist[f"cell:{cause}|{second}|{self.state_class()}"] += 1
+                    if raised is None:
+                        if how != "format-unsupported":
+                            self.ctx.fail(f"{cause}/{second}/not-refused", f"{name}: a block stored by {first}, then given a {how.replace('-', ' ')} in place and offered again through "
+                                                                           f"{second}, was not refused")
+                    elif after != before:
+                        k = next((i for i in range(min(len(before), len(after))) if before[i] != after[i]), min(len(before), len(after)))
+                        self.ctx.fail(f"{cause}/{second}/file-changed", f"{name}: the very object of an accepted {first} was spoilt in place ({how}) and offered again through {second}: "
+                                                                        f"refused ({type(raised).__name__}), but the file changed: length {len(before)} -> {len(after)}, first "
+                                                                        f"difference at byte {k} (the block stored earlier is "
+                                                                        f"{'gone' if reftdf.TYPE_CODE[name] not in [e['type'] for _, e in reftdf.live(reftdf.parse_container(after))] else 'still listed'})")
 
     def session_of_refusals(self, seed):
         import shutil
